@@ -256,12 +256,21 @@ var xmlValueNames = []string{"a", "b", "c", "item", "k", "list", "n.a", "A", "a-
 
 // jsonValue: maps, lists (scalars, maps, mixed, nested, empty), strings, numbers, bools, nulls;
 // attribute entries with scalar values; text entries.
+// oddFloat: float64 values whose %v text is not the obvious one (exponent forms, whole numbers
+// beyond the int64 and uint64 ranges, beyond 2^53, tiny fractions)
+func (r *Rng) oddFloat() float64 {
+	return []float64{1e6, 1234567, 1e19, 1e20, 18446744073709551616, -9.3e18, -3e25, 1e21, 1e-7, 0.1, 2.5e-5, 9007199254740992, 9007199254740993, -0.5, 123456789.125}[r.Intn(15)]
+}
+
 func (r *Rng) c03Value(depth int, inList bool) interface{} {
 	if depth >= 4 || r.P(35) {
 		switch r.Intn(8) {
 		case 0:
 			return nil
 		case 1:
+			if r.P(30) {
+				return r.oddFloat()
+			}
 			return float64(r.Intn(100)) / 4
 		case 2:
 			return r.Bool()
@@ -297,6 +306,9 @@ func (r *Rng) c03Map(depth int) map[string]interface{} {
 			switch r.Intn(4) {
 			case 0:
 				av = float64(r.Intn(9))
+				if r.P(25) {
+					av = r.oddFloat()
+				}
 			case 1:
 				av = r.Bool()
 			}
